@@ -402,6 +402,23 @@ def check_extras(case):
                 continue
             if iy != want or ey != [i for i in range(n) if i not in want]:
                 out.viol('wrong-rows', 'inc(x=%s) on x=%s: inc.y=%s exc.y=%s, expected inc.y=%s (ints are compared exactly: 2**53+1 != 2.0**53)' % (vname, big, iy, ey, want), op='inc', bigint=True)
+    # ---- rows that are EQUAL as records (1 / 1.0 / True, no row id column) under predicates that tell them apart: rows are positions, not values
+    if 2 <= n <= 3:
+        tcells = [[1, 1.0, True, 2, 2.0, 'a'][i] for i in case['x']]
+        for pname, pred in (('isinstance(x, float)', lambda x: isinstance(x, float)), ('type(x) is int', lambda x: type(x) is int), ('x is True', lambda x: x is True)):
+            out.sub()
+            d = dictable(x=list(tcells), z=['k'] * n)
+            try:
+                ix, ex = list(d.inc(pred)['x']), list(d.exc(pred)['x'])
+                out.call(2)
+            except Exception as e:
+                out.viol('inc-raised', 'inc / exc(lambda x: %s) on x=%r raised %s: %s' % (pname, tcells, type(e).__name__, e), cond='type-sensitive', suite='extras')
+                continue
+            wi, we = [c for c in tcells if pred(c)], [c for c in tcells if not pred(c)]
+            same = lambda a, b: len(a) == len(b) and all(p is q for p, q in zip(a, b))
+            if not same(ix, wi) or not same(ex, we):
+                out.viol('wrong-rows', 'inc / exc(lambda x: %s) on x=%r (no other distinguishing column): inc.x=%r exc.x=%r, expected %r / %r' % (pname, tcells, ix, ex, wi, we),
+                         op='inc/exc', equal_records=True)
     # ---- underscored column names
     if n:
         out.sub()
